@@ -18,6 +18,11 @@ elab "#audit " ns:ident : command => do
       match ci with
       | .thmInfo _ => names := names.push n
       | _ => pure ()
+  -- auxiliary constructions the compiler derives for inductive predicates are not statements of ours
+  let aux : List String := ["brecOn", "below", "recOn", "casesOn", "rec", "noConfusion", "binductionOn", "ibelow", "ndrec", "ndrecOn"]
+  names := names.filter fun n => match n with
+    | .str _ s => !(aux.contains s)
+    | _ => true
   let sorted := names.qsort (fun a b => a.toString < b.toString)
   for n in sorted do
     let axs ← liftCoreM (collectAxioms n)
